@@ -122,8 +122,24 @@ func buildFixtures(seed uint64) *Fix {
 			f.DSeal = append(f.DSeal, bs)
 		}
 	}
+	// more distinct public keys in flight (verify-only): a bounded table of
+	// recently seen keys must meet more keys than it holds
+	for k := 0; k < 6; k++ {
+		var sd [48]byte
+		r.Bytes(sd[:])
+		d, err := dilithium.NewDilithiumFromSeed(sd)
+		if err != nil {
+			panic(err)
+		}
+		f.DilPK = append(f.DilPK, d.GetPK())
+		s, err := d.Sign(f.Msgs[1+k%3])
+		if err != nil {
+			panic(err)
+		}
+		f.DSig = append(f.DSig, dsig{1 + k%3, len(f.DilPK) - 1, s})
+	}
 	f.DSeal = append(f.DSeal, []byte{1, 2, 3}) // shorter than a signature
-	for i := 0; i < 3; i++ {
+	for i := 0; i < 6; i++ {
 		// keys 0 and 2: same height, same hash function, different seed;
 		// keys 0 and 1: seeds differing in one bit, different hash function
 		hf := xmss.HashFunction((int(seed) + i) % 3)
@@ -131,6 +147,10 @@ func buildFixtures(seed uint64) *Fix {
 		if i == 2 {
 			hf = xmss.HashFunction(int(seed) % 3)
 			ks = f.Seeds[0]
+		}
+		if i > 2 { // further keys, all hash functions
+			hf = xmss.HashFunction(i % 3)
+			r.Bytes(ks[:])
 		}
 		k := xmss.NewXMSSFromSeed(ks, 4, hf, common.SHA256_2X)
 		pk := k.GetPK()
